@@ -104,14 +104,16 @@ pub fn run(args: &Args) {
         let one = Moles::from_reduced(arr1(&[1.0]));
         // library calls
         let mut psat = vec![]; let mut rhol_eq = vec![]; let mut rhol = vec![]; let mut ps = vec![]; let mut visc = vec![]; let mut lam = vec![]; let mut dif = vec![];
-        for &f in &ts {
+        for (k, &f) in ts.iter().enumerate() {
             let t = tc * f;
             let pe = PhaseEquilibrium::pure(eos, t, None, SolverOptions::default());
             let Ok(pe) = pe else { psat.push(f64::NAN); rhol_eq.push(f64::NAN); rhol.push(f64::NAN); ps.push(1.0e5); visc.push(f64::NAN); lam.push(f64::NAN); dif.push(f64::NAN); continue };
             let p = pe.vapor().pressure(Contributions::Total);
             psat.push(p.convert_into(PASCAL));
             rhol_eq.push(pe.liquid().mass_density().convert_into(KILOGRAM / METER.powi::<P3>()));
-            let p2 = p * 3.0;
+            // compressed liquid, and (second and fourth temperature) the metastable liquid below the saturation pressure: the liquid-phase data sets
+            // must evaluate the liquid root there, not the stable vapor
+            let p2 = p * [3.0, 0.6, 3.0, 0.8, 3.0][k];
             ps.push(p2.convert_into(PASCAL));
             let st = State::new_npt(eos, t, p2, &one, DensityInitialization::Liquid);
             rhol.push(st.as_ref().map(|s| s.mass_density().convert_into(KILOGRAM / METER.powi::<P3>())).unwrap_or(f64::NAN));
